@@ -2,10 +2,10 @@
 # usage: seedrun.sh <seeddir> <prop> [tier]  — applies a seeded change to /repo, runs the check, reverts.
 # (development aid; never leaves /repo modified)
 D=$1; P=$2; T=${3:-quick}
-cd /repo && git diff --quiet || { echo "/repo not clean"; exit 9; }
-git -C /repo apply $D/patch.diff 2>/dev/null || git -C /repo apply -3 $D/patch.diff 2>/dev/null || (cd /repo && patch -p1 -s < $D/patch.diff) || { echo "patch failed"; git -C /repo checkout -- .; exit 9; }
+cd /repo && git diff --quiet HEAD || { echo "/repo not clean"; exit 9; }
+git -C /repo apply $D/patch.diff 2>/dev/null || git -C /repo apply -3 $D/patch.diff 2>/dev/null || (cd /repo && patch -p1 -s < $D/patch.diff) || { echo "patch failed"; git -C /repo reset -q --hard HEAD; exit 9; }
 cd /verif && ./check.sh $P $T > /tmp/seedrun.out 2>&1; rc=$?
-git -C /repo checkout -- . ; git -C /repo clean -fdq
+git -C /repo reset -q --hard HEAD; git -C /repo clean -fdq
 grep -c "^VIOLATION" /tmp/seedrun.out | sed "s/^/violations: /"
 grep "^VIOLATION" /tmp/seedrun.out | cut -c1-420 | head -5
 echo "exit=$rc"
